@@ -26,7 +26,7 @@ Trace == ndJsonDeserialize("trace.ndjson")
 
 Reset ==
   /\ chain' = InitChain /\ fh' = InitFH
-  /\ nq' = <<>> /\ subOn' = FALSE /\ upd' = <<>>
+  /\ nq' = <<>> /\ subOn' = FALSE /\ upd' = <<>> /\ outbox' = <<>>
   /\ nExt' = 0 /\ nRb' = 0 /\ nFail' = 0 /\ nUpd' = 0 /\ nNotCur' = 0
   /\ pc' = "idle" /\ arg' = -1 /\ ctx' = "" /\ pb' = -1 /\ rwT' = 0
   /\ cur' = StartB /\ scanning' = FALSE /\ retryQ' = <<>>
